@@ -21,6 +21,7 @@ RULE = (
     "detections against an independent recursive-descent parser. Non-trivial = >= 2 operators, or a "
     "name that starts with a keyword or underscore, or a selector; distinct by SHA-1 of the case."
 )
+RULE += (" " + "The name pool also holds names with a hyphen directly after a keyword (not-admin, and-x, or-1, all-of-x) and the names '-' and '-admin'.")
 ASSUMPTIONS = [
     "the reference parser in vf/ref/conditions.py is the Sigma condition grammar (self-checked "
     "against an enumerative evaluator in every run)",
